@@ -517,6 +517,10 @@ class SVGPath(SVGShape, SVGCommandSeq):
         def subpaths_callback(subpath_start, curr_pos, cmd, args, *_unused):
             if cmd.upper() == "M":
                 subpaths.append(SVGPath())
+            elif not subpaths[-1].d:
+                # after closepath the next subpath starts at the same point
+                # as the closed one; give it its own moveto to stay standalone
+                subpaths[-1]._add_cmd("M", *subpath_start)
             subpaths[-1]._add_cmd(cmd, *args)
             if cmd.upper() == "Z":
                 subpaths.append(SVGPath())
